@@ -1,6 +1,7 @@
 #![allow(dead_code, unused_imports, unused_variables, unused_mut, unused_assignments)]
 mod golden;
 mod gw;
+mod its;
 mod oracle;
 mod probes;
 mod props;
